@@ -244,14 +244,14 @@ fn quote_wrappings(maxlen: usize) -> Vec<String> {
 
 fn phon_pairs(root: &std::path::Path) -> Result<Vec<(Sess, Sess)>, Panic> {
     let mut v = vec![];
-    for o in [O_PSUGG, O_PSUGG | O_ENG, O_PSUGG | O_ANSI, 0, O_PSUGG | O_ENG | O_ANSI] {
+    for o in [O_PSUGG, O_PSUGG | O_ENG | O_FIXED_ONLY, O_PSUGG | O_ANSI, 0, O_PSUGG | O_ENG | O_ANSI | O_FSUGG | O_VOWEL] {
         v.push((Sess::new(CfgSpec::new(Lay::Phonetic, o), root)?, Sess::new(CfgSpec::new(Lay::Phonetic, o | O_SQ), root)?));
     }
     Ok(v)
 }
 fn fixed_pairs(root: &std::path::Path) -> Result<Vec<(Sess, Sess)>, Panic> {
     let mut v = vec![];
-    for o in [O_FSUGG, O_FSUGG | O_ENG, O_FSUGG | O_ANSI | O_TKAR, 0, O_FSUGG | O_ENG | O_TKAR | O_VOWEL] {
+    for o in [O_FSUGG, O_FSUGG | O_ENG | O_PSUGG, O_FSUGG | O_ANSI | O_TKAR, 0, O_FSUGG | O_ENG | O_TKAR | O_VOWEL | O_PSUGG] {
         v.push((Sess::new(CfgSpec::new(Lay::Probhat, o | O_NUMPAD), root)?, Sess::new(CfgSpec::new(Lay::Probhat, o | O_NUMPAD | O_SQ), root)?));
     }
     Ok(v)
